@@ -196,9 +196,10 @@ func (c *committedLog) history(b []byte) []byte {
 // MonC09 checks snapshot installation at the receiver and the content of every
 // snapshot a leader sends.
 type MonC09 struct {
-	cl     *committedLog
-	fold   *confFold
-	shared bool
+	cl       *committedLog
+	fold     *confFold
+	accepted []uint64 // per node: index of the newest snapshot it accepted in this incarnation
+	shared   bool
 }
 
 func NewMonC09() *MonC09 { return &MonC09{} }
@@ -206,6 +207,7 @@ func (m *MonC09) Prop() string { return "C09" }
 func (m *MonC09) Init(w *World) {
 	m.cl = newCommittedLog()
 	m.fold = newConfFold(w.Sc)
+	m.accepted = make([]uint64, len(w.Nodes))
 }
 func (m *MonC09) Clone() Monitor {
 	m.shared = true
@@ -214,12 +216,16 @@ func (m *MonC09) Clone() Monitor {
 }
 func (m *MonC09) own() {
 	if m.shared {
-		m.cl, m.fold, m.shared = m.cl.clone(), m.fold.clone(), false
+		m.cl, m.fold, m.accepted, m.shared = m.cl.clone(), m.fold.clone(), append([]uint64(nil), m.accepted...), false
 	}
 }
 func (m *MonC09) History(b []byte) []byte {
 	b = m.cl.history(b)
-	return m.fold.history(b)
+	b = m.fold.history(b)
+	for _, a := range m.accepted {
+		b = binary.AppendUvarint(b, a)
+	}
+	return b
 }
 
 func sameLog(a, b *LogView) bool {
@@ -288,6 +294,24 @@ func (m *MonC09) OnEvent(w *World, rec *StepRec) []*Violation {
 			}
 			if got, want := confOfState(post), confOfCS(cs); !got.Equal(want) {
 				out = append(out, &Violation{"C09", "install-membership", fmt.Sprintf("node %d after installing snapshot %d uses config %s, snapshot says %s", n.ID, sidx, got, want)})
+			}
+		}
+	}
+	// an accepted snapshot stays the node's log base (until an even newer one replaces it)
+	if rec.Restarted {
+		m.own()
+		m.accepted[i] = 0 // an unpersisted snapshot may be lost in a crash
+	} else {
+		if post.UnstableSnapshot != nil {
+			if idx := post.UnstableSnapshot.GetMetadata().GetIndex(); idx > m.accepted[i] {
+				m.own()
+				m.accepted[i] = idx
+			}
+		}
+		if a := m.accepted[i]; a > 0 {
+			log := w.Log(i)
+			if log.BaseIndex < a || post.Committed < a {
+				out = append(out, &Violation{"C09", "accepted-snapshot-stays-base", fmt.Sprintf("node %d accepted a snapshot at %d but its log now starts after %d with commit %d (last index %d)", n.ID, a, log.BaseIndex, post.Committed, log.Last())})
 			}
 		}
 	}
